@@ -90,3 +90,93 @@ Section Teq.
       eapply teq_trans; [apply Hpre|]. apply peq_teq, rep_rep_nat.
   Qed.
 End Teq.
+
+(* ------------------------------------------------------------------ *)
+(* The additive variant: an N-valued measure of the trace (for instance the sum of the sizes
+   announced to the memory tracker), compared on SUCCESSFUL runs only.  [seq mu p q]: p and q
+   have the same outcome on every input and, when that outcome is a value, traces of equal measure. *)
+Section Seq.
+  Context (mu : list event -> N) (mu_app : forall a b, mu (a ++ b) = mu a + mu b) (mu_nil : mu [] = 0).
+
+  Definition is_ok {A} (o : out A) : bool := match o with OOk _ _ => true | _ => false end.
+
+  Definition seq {A} (p q : prog A) : Prop :=
+    forall known bs, fst (runt p known bs) = fst (runt q known bs) /\
+                     (is_ok (fst (runt p known bs)) = true -> mu (snd (runt p known bs)) = mu (snd (runt q known bs))).
+
+  Lemma seq_refl A (p : prog A) : seq p p. Proof. intros ? ?; split; reflexivity. Qed.
+  Lemma seq_sym A (p q : prog A) : seq p q -> seq q p.
+  Proof. intros H known bs. destruct (H known bs) as [H1 H2]. split; [congruence|]. rewrite <- H1. intros E. symmetry. auto. Qed.
+  Lemma seq_trans A (p q r : prog A) : seq p q -> seq q r -> seq p r.
+  Proof.
+    intros H1 H2 known bs. destruct (H1 known bs) as [A1 A2], (H2 known bs) as [B1 B2]. split; [congruence|].
+    intros E. rewrite A2 by exact E. apply B2. now rewrite <- A1.
+  Qed.
+  Lemma peq_seq A (p q : prog A) : peq p q -> seq p q.
+  Proof. intros H known bs. rewrite (H known bs). split; reflexivity. Qed.
+
+  Lemma seq_bind A B (p q : prog A) (f g : A -> prog B) :
+    seq p q -> (forall a, seq (f a) (g a)) -> seq (bindp p f) (bindp q g).
+  Proof.
+    intros Hp Hf known bs. rewrite !runt_bind. destruct (Hp known bs) as [H1 H2].
+    destruct (runt p known bs) as [o1 e1]; destruct (runt q known bs) as [o2 e2]. cbn [fst snd] in *. subst o2.
+    destruct o1 as [a r|r| |]; cbn [fst snd is_ok]; try (split; [reflexivity|discriminate]).
+    destruct (Hf a known r) as [G1 G2]. unfold app_ev. cbn [fst snd]. rewrite !mu_app. split; [exact G1|].
+    intros E. rewrite H2 by reflexivity. rewrite G2 by exact E. reflexivity.
+  Qed.
+
+  Lemma seq_rep_nat A (c d : prog A) n : seq c d -> seq (rep_nat n c) (rep_nat n d).
+  Proof.
+    intros H. induction n as [|n IH]; cbn [rep_nat]; [apply seq_refl|].
+    apply seq_bind; [exact H|]. intros a. apply seq_bind; [exact IH|]. intros; apply seq_refl.
+  Qed.
+  Lemma seq_rep A (c d : prog A) n : seq c d -> seq (rep n c) (rep n d).
+  Proof.
+    intros H. eapply seq_trans; [apply peq_seq, rep_rep_nat|].
+    eapply seq_trans; [apply seq_rep_nat; exact H|]. apply seq_sym, peq_seq, rep_rep_nat.
+  Qed.
+
+  Lemma rep_nat_mul_s A (c : prog A) (q m : nat) :
+    seq (l <- rep_nat q (rep_nat m c) ;; Ret (concat l)) (rep_nat (q * m) c).
+  Proof.
+    induction q as [|q IH]; cbn [rep_nat Nat.mul].
+    - apply seq_refl.
+    - eapply seq_trans; [|apply seq_sym, peq_seq, rep_nat_app].
+      eapply seq_trans; [apply peq_seq, peq_bind_assoc|].
+      apply seq_bind; [apply seq_refl|]. intros l1.
+      eapply seq_trans; [apply peq_seq, peq_bind_assoc|]. cbn [bindp concat].
+      eapply seq_trans; [|apply seq_bind; [apply IH|intros; apply seq_refl]].
+      eapply seq_trans; [|apply seq_sym, peq_seq, peq_bind_assoc]. cbn [bindp].
+      apply seq_refl.
+  Qed.
+
+  (* decode_vec_chunked against an element-wise twin c' that accounts, per element, for what the
+     chunk preamble accounts per chunk *)
+  Theorem chunked_is_rep_s A (c c' : prog A) (pre : N -> prog unit) (cl n : N) :
+    0 < cl -> (forall k, k <= cl -> seq (pre k ;;; rep k c) (rep_nat (N.to_nat k) c')) ->
+    seq (full <- (if n / cl =? 0 then Ret [] else rep (n / cl) (pre cl ;;; rep cl c)) ;;
+         (if n mod cl =? 0 then Ret (concat full)
+          else last <- (pre (n mod cl) ;;; rep (n mod cl) c) ;; Ret (concat full ++ last)))
+        (rep n c').
+  Proof.
+    intros Hcl Hpre.
+    pose proof (N.div_mod n cl ltac:(lia)) as Hdm. pose proof (N.mod_lt n cl ltac:(lia)) as Hlt.
+    set (q := n / cl) in *. set (r := n mod cl) in *.
+    eapply seq_trans; [|apply seq_sym, peq_seq, rep_rep_nat].
+    replace (N.to_nat n) with (N.to_nat q * N.to_nat cl + N.to_nat r)%nat by lia.
+    eapply seq_trans; [|apply seq_sym, peq_seq, rep_nat_app].
+    assert (H1: seq (if q =? 0 then Ret [] else rep q (pre cl ;;; rep cl c))
+                    (rep_nat (N.to_nat q) (rep_nat (N.to_nat cl) c'))).
+    { destruct (N.eqb_spec q 0) as [E|E]; [rewrite E; apply seq_refl|].
+      eapply seq_trans; [apply peq_seq, rep_rep_nat|].
+      apply seq_rep_nat. apply Hpre. lia. }
+    eapply seq_trans; [apply seq_bind; [exact H1|intros; apply seq_refl]|].
+    eapply seq_trans; [|apply seq_bind; [apply rep_nat_mul_s|intros; apply seq_refl]].
+    eapply seq_trans; [|apply seq_sym, peq_seq, peq_bind_assoc]. cbn [bindp].
+    apply seq_bind; [apply seq_refl|]. intros full.
+    destruct (N.eqb_spec r 0) as [E|E].
+    - rewrite E. change (N.to_nat 0) with 0%nat. cbn [rep_nat bindp]. intros known bs. cbn [runt fst snd].
+      now rewrite app_nil_r.
+    - apply seq_bind; [|intros; apply seq_refl]. apply Hpre. lia.
+  Qed.
+End Seq.
